@@ -1,22 +1,25 @@
 #!/usr/bin/env python3
-"""Refresh /verif/seeded/<id>/meta.json and seeded/README.md from the eval.json files that tools/seeded_eval.py wrote
-(usage: seeded_refresh.py <dir holding <id>/eval.json>)."""
+"""Refresh /verif/seeded/<id>/meta.json and seeded/README.md from the eval.json files that tools/seeded_eval.py wrote.
+usage: seeded_refresh.py <dir holding <id>/eval.json of the latest run> [<dir of an earlier (first) run>]
+(<id> may be stored without the r2- prefix)"""
 import json, os, re, sys
 VERIF = os.path.dirname(os.path.dirname(os.path.abspath(__file__)))
-src = sys.argv[1]
-rows = []
-for name in sorted(os.listdir(os.path.join(VERIF, 'seeded'))):
-    d = os.path.join(VERIF, 'seeded', name)
-    ev = os.path.join(src, name, 'eval.json')
-    if not os.path.isdir(d) or not os.path.exists(ev):
-        continue
-    e = json.load(open(ev))
-    meta = json.load(open(os.path.join(d, 'meta.json')))
-    pid = meta['property']
+latest = sys.argv[1]
+first = sys.argv[2] if len(sys.argv) > 2 else None
+
+
+def load(src, name):
+    for n in (name, name[3:] if name.startswith('r2-') else name):
+        p = os.path.join(src, n, 'eval.json')
+        if os.path.exists(p):
+            return json.load(open(p))
+    return None
+
+
+def verdict(e, pid):
     c = e['checks'][pid]
     failed = [re.search(r'obligation=(\S+)', l).group(1) for l in c['lines'] if l.startswith('FAILED-OBLIGATION')]
     vio = [l for l in c['lines'] if l.startswith('VIOLATION')]
-    fin = [l for l in c['lines'] if l.startswith('FAILING-INPUT')]
     if failed:
         by = 'verus/kani obligation' + (' (no failing input found)' if vio and vio[0].endswith('no-failing-input-found') else ' + failing input replayed on the real crate')
     elif vio and 'measure' in vio[0]:
@@ -25,24 +28,53 @@ for name in sorted(os.listdir(os.path.join(VERIF, 'seeded'))):
         by = 'probe (failing input found after the verifier could not decide the changed tree)'
     elif c['rc'] == 2:
         by = 'NOT caught: undecided'
+    elif c['rc'] == 0:
+        by = 'NOT caught: check passed'
     else:
-        by = 'NOT caught'
-    meta['confirmed_by_me'] = {'scratch_worktree': '/tmp/wt-eval (removed)', 'tests_with_patch': e['tests'], 'demo_exit_unchanged': e['demo_unchanged_rc'],
-                               'demo_exit_with_patch': e['demo_changed_rc'],
-                               'ran': 'tools/seeded_eval.py: git worktree add; cargo test --offline with the patch; demo built against the worktree with and without the patch; then git -C /repo apply, python3 tools/check.py %s, git -C /repo checkout -- .' % pid}
-    meta['check_result'] = {'exit': c['rc'], 'failed_obligations': failed, 'lines': c['lines'][:8], 'caught_by': by}
+        by = 'exit %d' % c['rc']
+    return {'exit': c['rc'], 'failed_obligations': failed, 'lines': c['lines'][:8], 'caught_by': by}
+
+
+rows = []
+for name in sorted(os.listdir(os.path.join(VERIF, 'seeded'))):
+    d = os.path.join(VERIF, 'seeded', name)
+    if not os.path.isdir(d) or not os.path.exists(os.path.join(d, 'meta.json')):
+        continue
+    meta = json.load(open(os.path.join(d, 'meta.json')))
+    pid = meta['property']
+    e = load(latest, name)
+    if e is not None:
+        meta['confirmed_by_me'] = {'scratch_worktree': '/tmp/wt-eval (removed)', 'tests_with_patch': e['tests'], 'demo_exit_unchanged': e['demo_unchanged_rc'],
+                                   'demo_exit_with_patch': e['demo_changed_rc'],
+                                   'ran': 'tools/seeded_eval.py: git worktree add; cargo test --offline with the patch; demo built against the worktree with and without the patch; then git -C /repo apply, python3 tools/check.py %s, git -C /repo checkout -- .' % pid}
+        meta['check_result'] = verdict(e, pid)
+    if first:
+        e1 = load(first, name)
+        if e1 is not None:
+            meta['check_result_first_run'] = verdict(e1, pid)
     json.dump(meta, open(os.path.join(d, 'meta.json'), 'w'), indent=1)
-    rows.append((name, pid, meta.get('summary', ''), meta.get('needs', ''), c['rc'], by, ', '.join(failed[:3])))
+    cr = meta.get('check_result', {})
+    fr = meta.get('check_result_first_run', {})
+    rows.append((name, pid, meta.get('summary', ''), meta.get('needs', ''), cr.get('exit'), cr.get('caught_by', ''), ', '.join(cr.get('failed_obligations', [])[:3]), fr.get('caught_by', '')))
+
 out = ['# Seeded property-breaking changes', '',
        'Written by independent sub-agents that were given only the text of a property and a scratch git worktree of /repo (nothing from /verif).',
        'Each change compiles and keeps the 117 unit tests + doctest green; each `demo.rs` exits 0 on the unchanged crate and non-zero with the patch.',
-       'I re-confirmed all of that in a scratch worktree (`tools/seeded_eval.py`), then applied each patch to /repo, ran the property\'s check and undid the patch.', '',
-       '| id | property | change | needs | check exit | caught by | failed obligations |', '|---|---|---|---|---|---|---|']
-for r in rows:
-    out.append('| %s | %s | %s | %s | %d | %s | %s |' % (r[0], r[1], r[2].replace('|', '/'), r[3][:200].replace('|', '/'), r[4], r[5], r[6]))
-out += ['', 'Reading the table: "verus/kani obligation" means a contracted function, lemma or harness that is discharged on the unchanged tree failed on the changed tree; where the probes',
+       'I re-confirmed all of that in a scratch worktree (`tools/seeded_eval.py`), then applied each patch to /repo, ran the property\'s check and undid the patch.',
+       '`C01-1 … C20-6` are round 1 (used while building the machinery); `r2-*` are round 2 (written after it existed; "first run" is the result before the repairs that run prompted).', '']
+for title, sel in (('Round 1', lambda n: not n.startswith('r2-')), ('Round 2', lambda n: n.startswith('r2-'))):
+    rs = [r for r in rows if sel(r[0])]
+    if not rs:
+        continue
+    caught = sum(1 for r in rs if r[4] == 1)
+    out += ['## %s: %d of %d reported (exit 1)' % (title, caught, len(rs)), '',
+            '| id | property | change | needs | check exit | caught by | failed obligations | first run |', '|---|---|---|---|---|---|---|---|']
+    for r in rs:
+        out.append('| %s | %s | %s | %s | %s | %s | %s | %s |' % (r[0], r[1], r[2].replace('|', '/'), r[3][:200].replace('|', '/'), r[4], r[5], r[6], r[7]))
+    out.append('')
+out += ['Reading the table: "verus/kani obligation" means a contracted function, lemma or harness that is discharged on the unchanged tree failed on the changed tree; where the probes',
         'of that property also found a concrete failing input it is attached to the replay file, else the VIOLATION line ends with no-failing-input-found.',
-        '"probe" means the changed code left the reach of the verifier (a hand-rolled encoder using `to_be_bytes`, a closure the contracts do not annotate, ...), the verifier answered UNDECIDED,',
+        '"probe" means the changed code left the reach of the verifier (a hand-rolled encoder using `to_be_bytes`, a closure or helper the contracts do not annotate, ...), the verifier answered UNDECIDED,',
         'and the replay probes then found a concrete failing input on the real crate, which is reported as the violation with that input. Without a failing input such a tree stays UNDECIDED (exit 2), never an alarm.', '']
 open(os.path.join(VERIF, 'seeded', 'README.md'), 'w').write('\n'.join(out))
 print(len(rows), 'rows')
